@@ -134,11 +134,12 @@ Fixpoint update_path (p : list pstr) (f : section -> section) (d : dict) : dict 
   end.
 
 (* ---- the public entry points ---------------------------------------------- *)
-(* Card.select(key) *)
+(* Card.select(key): the whole key, then every name of the path, must be non-empty
+   (`if not leaf_node_name or not all(subsection_names)`; repair of finding C09-F1) *)
 Definition card_select (key : pstr) (d : dict) : res section :=
   if is_empty key then Raise EKey
   else let (parents, leaf) := unsnoc (split_names key) in
-       if is_empty leaf then Raise EKey
+       if is_empty leaf || negb (forallb nonempty parents) then Raise EKey
        else match descend parents d with
             | None => Raise EKey
             | Some pd => match dget leaf pd with Some x => Ok x | None => Raise EKey end
@@ -169,18 +170,21 @@ Definition chain_select (ks : list pstr) (d : dict) : res (list pstr * section) 
                 end
   end.
 
-(* Card.delete(key) with key a str *)
+(* Card.delete(key) with key a str: same checks as Card.select *)
 Definition card_delete (key : pstr) (d : dict) : res dict :=
   if is_empty key then Raise EKey
   else let names := split_names key in
-       if is_empty (snd (unsnoc names)) then Raise EKey
+       let (parents, leaf) := unsnoc names in
+       if is_empty leaf || negb (forallb nonempty parents) then Raise EKey
        else match delete_path names d with Some d' => Ok d' | None => Raise EKey end.
 
-(* Card.delete(key) with key a list of str: names are used verbatim (no split, no strip) *)
+(* Card.delete(key) with key a list of str: names are used verbatim (no split, no strip);
+   an empty list is an empty key, then every name must be non-empty *)
 Definition card_delete_list (names : list pstr) (d : dict) : res dict :=
   match names with
   | [] => Raise EKey
-  | _ :: _ => if is_empty (snd (unsnoc names)) then Raise EKey
+  | _ :: _ => let (parents, leaf) := unsnoc names in
+              if is_empty leaf || negb (forallb nonempty parents) then Raise EKey
               else match delete_path names d with Some d' => Ok d' | None => Raise EKey end
   end.
 
